@@ -58,6 +58,14 @@ func (p *Pairing) strictResponder(intended *[]string) func(b *world.Backend, r *
 
 // clientMsgs returns the canonical messages the client received and its parse.
 func (p *Pairing) clientMsgs(ex *world.Exchange) ([]string, *wire.ClientResp) {
+	out, pr, _ := p.clientMsgs2(ex)
+	return out, pr
+}
+
+// clientMsgs2 also reports whether every received message decodes under the client's codec
+// (a client that cannot decode what it was sent does not observe success).
+func (p *Pairing) clientMsgs2(ex *world.Exchange) ([]string, *wire.ClientResp, bool) {
+	decodable := true
 	form := p.Client
 	if form == wire.ConnectGet {
 		form = wire.ConnectUnary
@@ -66,16 +74,35 @@ func (p *Pairing) clientMsgs(ex *world.Exchange) ([]string, *wire.ClientResp) {
 	pr := wire.ParseClientResponse(form, r.Status, r.HeadHeaders(), r.BodyBytes.Bytes(), r.Trailers)
 	var out []string
 	if pr.BareHTTP || !(pr.End.Code == 0 && pr.End.CodeStr == "") {
-		return nil, pr
+		return nil, pr, true
 	}
 	for _, m := range pr.Msgs {
+		codec := pr.Codec
 		if form == wire.REST {
-			out = append(out, canonJSON(m))
-		} else {
-			out = append(out, canonMsg(pr.Codec, p.out(), m))
+			if !p.restWholeResponse() {
+				if !json.Valid(m) {
+					decodable = false
+				}
+				out = append(out, canonJSON(m))
+				continue
+			}
+			codec = "json"
 		}
+		if _, err := wire.Unmarshal(codec, p.out(), m); err != nil {
+			decodable = false
+		}
+		out = append(out, canonMsg(codec, p.out(), m))
 	}
-	return out, pr
+	return out, pr, decodable
+}
+
+// restWholeResponse: the REST response body is the whole response message as JSON.
+func (p *Pairing) restWholeResponse() bool {
+	switch p.Method {
+	case "Nested", "Scalar", "Blob", "RawIO", "Download":
+		return false
+	}
+	return true
 }
 
 // backendMsgs returns the canonical complete messages the backend was handed.
@@ -293,9 +320,8 @@ func init() {
 		if failAt >= 0 && failAt < len(delivered) {
 			delivered = delivered[:failAt]
 		}
-		_ = boundaryCut
 		id := p.idealRequest(specCopy, delivered, failErr != nil)
-		c09Judge(c, b, &p, v, id, desc, true)
+		c09Judge(c, b, &p, v, id, desc, true, boundaryCut)
 	}
 	// ----------------------------------------------------------------- response side
 	respSide := func(c *xplor.Ctx) {
@@ -303,12 +329,13 @@ func init() {
 		c.Attr("pairing", p.Name)
 		c.Attr("path", p.Path)
 		c.Attr("side", "response")
+		c.Attr("target", p.Target.String())
 		b := c09Base(c, &p)
 		if b == nil {
 			return
 		}
 		n := len(b.respBody)
-		kind := c.Free("fault", 7)
+		kind := c.Free("fault", 6)
 		desc := ""
 		mut := func(r *world.Reply) {}
 		switch kind {
@@ -421,7 +448,7 @@ func init() {
 			return
 		}
 		c.Nontrivial(p.Name + "|" + desc)
-		c09Judge(c, b, &p, v, id, desc, false)
+		c09Judge(c, b, &p, v, id, desc, false, false)
 	}
 	Register(&Check{
 		ID:    "C09",
@@ -441,41 +468,46 @@ func init() {
 
 // ideal is what an ideal peer of the sender's own protocol would make of a (faulted) stream.
 type ideal struct {
-	wellFormed bool     // the stream is a complete, valid stream of its protocol
-	complete   []string // canonical complete+decodable messages, in order
-	why        string
+	wellFormed  bool     // the stream is a complete, valid stream of its protocol
+	complete    []string // canonical complete messages (undecodable ones as hex), in order
+	why         string
+	rest        bool // REST client: messages cannot be compared unit by unit
+	transportOK bool
 }
 
 // idealRequest parses the bytes the client actually delivered, as its own protocol.
+// transportOK: the body arrived without a transport error and honours any declared length.
 func (p *Pairing) idealRequest(spec *drive.ReqSpec, delivered []byte, transportErr bool) ideal {
 	var id ideal
-	if p.Client == wire.REST {
-		id.wellFormed = !transportErr && (len(delivered) == 0 || json.Valid(delivered))
-		if spec.ContentLength >= 0 && int64(len(delivered)) != spec.ContentLength {
-			id.wellFormed = false
-		}
-		id.complete = nil
-		return id
-	}
-	u, _ := url.ParseRequestURI(spec.Target)
 	cl := spec.ContentLength
 	if cl == -2 {
 		cl = int64(len(delivered))
 	}
-	h := spec.Header.Clone()
-	pr := wire.ParseBackendRequest(spec.Method, u, h, cl, delivered)
-	id.wellFormed = !transportErr && len(pr.Complaints) == 0
-	if len(pr.Complaints) > 0 {
-		id.why = fmt.Sprint(pr.Complaints)
+	transportOK := !transportErr && (cl < 0 || cl == int64(len(delivered)))
+	if !transportOK {
+		id.why = "transport error / declared length not honoured"
 	}
-	if !pr.Form.Enveloped() && (transportErr || len(pr.Complaints) > 0) {
+	if p.Client == wire.REST {
+		id.wellFormed = transportOK && (len(delivered) == 0 || json.Valid(delivered))
+		id.rest = true
+		id.transportOK = transportOK
+		return id
+	}
+	u, _ := url.ParseRequestURI(spec.Target)
+	h := spec.Header.Clone()
+	pr := wire.ParseBackendRequest(spec.Method, u, h, -1, delivered)
+	id.wellFormed = transportOK && len(pr.Complaints) == 0
+	id.transportOK = transportOK
+	if len(pr.Complaints) > 0 {
+		id.why += fmt.Sprint(pr.Complaints)
+	}
+	if !pr.Form.Enveloped() && !transportOK {
 		return id // a flat body that did not arrive intact contains no complete message
 	}
 	for _, m := range pr.Msgs {
 		if _, err := wire.Unmarshal(pr.Codec, p.in(), m); err != nil {
 			id.wellFormed = false
 			id.why += " undecodable message"
-			break
 		}
 		id.complete = append(id.complete, canonMsg(pr.Codec, p.in(), m))
 	}
@@ -494,26 +526,31 @@ func (p *Pairing) backendComplete(be *world.Backend) []string {
 }
 
 // c09Judge applies the oracle of C09 to one faulted execution.
-func c09Judge(c *xplor.Ctx, b *c09base, p *Pairing, v runResult, id ideal, desc string, reqSide bool) {
+func c09Judge(c *xplor.Ctx, b *c09base, p *Pairing, v runResult, id ideal, desc string, reqSide, boundary bool) {
 	if v.Ex.Panic != nil {
-		c.Fail("C09.no-terminated-response", "%s %s: ServeHTTP panicked: %s", p.Name, desc, v.Ex.Panic.Value)
+		c.Fail("C09.no-terminated-response", "%s %s: ServeHTTP panicked: %s\n%s", p.Name, desc, v.Ex.Panic.Value, stackTop(v.Ex.Panic.Stack))
 		return
 	}
-	cm, pr := p.clientMsgs(v.Ex)
+	cm, pr, decodable := p.clientMsgs2(v.Ex)
+	clientOK := pr.OK() && decodable
 	be := v.Backend
 	restInvolved := p.Client == wire.REST || p.Target == wire.REST
 	if reqSide {
 		got := p.backendComplete(be)
+		emptyEdge := len(id.complete) == 0 && id.transportOK && len(id.why) == 0 || boundary
 		switch {
+		case emptyEdge:
+			// a complete but empty (or cleanly shortened) request: what an empty stream or
+			// body means for the method is not a truncation question; not judged here
 		case restInvolved:
-			if !id.wellFormed && len(got) > 0 && be.Parsed.Form != wire.ConnectGet && !(be.Parsed.Form == wire.REST && len(be.Seen.Body) == 0) {
+			if !id.transportOK && len(got) > 0 && be.Parsed.Form != wire.ConnectGet && !(be.Parsed.Form == wire.REST && len(be.Seen.Body) == 0) {
 				c.Fail("C09.backend-got-unsent-message", "%s %s: the client's request never completed (%s) but the backend was handed complete-looking %v", p.Name, desc, id.why, got)
 			}
 		case !isPrefix(got, id.complete):
 			c.Fail("C09.backend-got-unsent-message", "%s %s: backend was handed complete-looking %v; the client completely sent only %v", p.Name, desc, got, id.complete)
 		}
-		if pr.OK() {
-			if !id.wellFormed || (!restInvolved && !eqStrs(got, id.complete)) {
+		if clientOK {
+			if !emptyEdge && (!id.wellFormed || (!restInvolved && !eqStrs(got, id.complete))) {
 				c.Fail("C09.fault-surfaced-as-success", "%s %s: client saw OK (messages %v) although the request stream was faulted (%s); backend processed %v, client completely sent %v", p.Name, desc, cm, id.why, got, id.complete)
 				return
 			}
@@ -521,7 +558,7 @@ func c09Judge(c *xplor.Ctx, b *c09base, p *Pairing, v runResult, id ideal, desc 
 			c.Outcome("ok-benign")
 			return
 		}
-	} else if pr.OK() {
+	} else if clientOK {
 		if !id.wellFormed || !eqStrs(cm, id.complete) {
 			c.Fail("C09.fault-surfaced-as-success", "%s %s: client saw OK with messages %v although the backend's response was faulted (%s); an ideal client of the backend's protocol gets %v", p.Name, desc, cm, id.why, id.complete)
 			return
@@ -531,7 +568,11 @@ func c09Judge(c *xplor.Ctx, b *c09base, p *Pairing, v runResult, id ideal, desc 
 		return
 	}
 	c.Note("nonok")
-	if len(pr.Complaints) > 0 {
+	// Well-formedness of the error response is demanded where the transcoder is in control of
+	// the whole response: for request-side faults, and for clients whose response it buffers.
+	// When a backend breaks off inside a frame that is already being streamed to an enveloped
+	// client nothing well-formed can follow; the non-OK outcome is what counts there.
+	if len(pr.Complaints) > 0 && (reqSide || !p.Client.Enveloped()) {
 		c.Fail("C09.malformed-error-response", "%s %s: non-OK response is not well-formed: %v\n client: %s", p.Name, desc, pr.Complaints, short(semClient(p.Client, v.Ex, p.out())))
 	}
 	if pr.BareHTTP {
@@ -555,11 +596,7 @@ func (p *Pairing) idealResponse(r *world.Reply) ideal {
 	body := r.Out.Body
 	h := r.Out.Header.Clone()
 	tr := r.Out.Trailer
-	truncated := false
 	if r.ReturnAfter >= 0 && r.ReturnAfter <= len(body) {
-		if r.ReturnAfter < len(body) {
-			truncated = true
-		}
 		body = body[:r.ReturnAfter]
 		tr = nil // an early return never sets the trailers
 		if r.ReturnAfter == len(r.Out.Body) {
@@ -569,28 +606,45 @@ func (p *Pairing) idealResponse(r *world.Reply) ideal {
 	if r.HasCL {
 		h.Set("Content-Length", fmt.Sprint(r.ContentLength))
 	}
+	if endFlag := map[wire.Form]byte{wire.GRPCWeb: 0x80, wire.ConnectStream: 0x02}[form]; endFlag != 0 && !r.HasCL {
+		// bytes that follow a complete end-of-stream frame are not part of the RPC any more
+		// (what a peer does with them is C11's robustness question, not truncation)
+		for _, o := range frameOffsets(body) {
+			if body[o]&endFlag != 0 {
+				if n := o + 5 + int(binary.BigEndian.Uint32(body[o+1:])); n <= len(body) {
+					body = body[:n]
+				}
+				break
+			}
+		}
+	}
 	pr := wire.ParseClientResponse(form, r.Out.Status, h, body, tr)
-	id.wellFormed = !truncated && len(pr.Complaints) == 0 && pr.OK()
+	// (a flat body without declared length that simply ends early is, to any client of that
+	// protocol, a complete shorter body: only what the protocol itself can detect counts)
+	id.wellFormed = len(pr.Complaints) == 0 && pr.OK()
 	if len(pr.Complaints) > 0 {
 		id.why = fmt.Sprint(pr.Complaints)
 	}
-	if truncated {
-		id.why += " handler returned early"
-	}
 	for _, m := range pr.Msgs {
-		if form == wire.REST {
+		if form == wire.REST && !p.restWholeResponse() {
 			if !json.Valid(m) {
 				id.wellFormed = false
 				id.why += " invalid JSON"
-				break
 			}
 			id.complete = append(id.complete, canonJSON(m))
+			continue
+		}
+		if form == wire.REST {
+			if _, err := wire.Unmarshal("json", p.out(), m); err != nil {
+				id.wellFormed = false
+				id.why += " undecodable message"
+			}
+			id.complete = append(id.complete, canonMsg("json", p.out(), m))
 			continue
 		}
 		if _, err := wire.Unmarshal(pr.Codec, p.out(), m); err != nil {
 			id.wellFormed = false
 			id.why += " undecodable message"
-			break
 		}
 		id.complete = append(id.complete, canonMsg(pr.Codec, p.out(), m))
 	}
